@@ -3,6 +3,12 @@
 # For each seeded change: fresh scratch worktree of /repo HEAD + patch.diff, all quick checks via
 # seedeval.sh, result written to /verif/seeded/<id>/detected.txt. Removes the worktree afterwards.
 set -u
+# evaluate against a frozen snapshot of the committed /verif, so that later edits do not interfere
+SNAPDIR=/tmp/verifsnap
+rm -rf "$SNAPDIR"; git -C /verif worktree prune
+git -C /verif worktree add --detach "$SNAPDIR" HEAD -q || exit 2
+export VERIF_SNAPSHOT="$SNAPDIR"
+echo "snapshot of /verif at $(git -C /verif rev-parse --short HEAD)"
 cd /verif/seeded || exit 2
 IDS="${*:-$(ls -d */ | tr -d /)}"
 for id in $IDS; do
@@ -15,3 +21,4 @@ for id in $IDS; do
   git -C /repo worktree remove --force "$wt"
   rm -rf /tmp/seedeval/_tmp_seedwt_$id
 done
+git -C /verif worktree remove --force "$SNAPDIR"
